@@ -28,12 +28,14 @@ LEVEL_TEXT += (" Also proved: RunInfo.storage_class (which backend an output is 
 LEVEL_TEXT += (" Also bounded: a run in two steps (one fixed_indices piece, then the completing full run on the same folder) "
                "returns, stores and invokes the same under 8 configurations incl. map_async and worker processes; a run into a folder that this process already used for a run on other values.")
 LEVEL_TEXT += (" Also proved: _cannot_be_parallelized (prepare_run switches parallel off exactly when no function has a MapSpec and every generation holds one function).")
+LEVEL_TEXT += (" Also proved: _maybe_parallel_map (one result per index, in the order of the indices: worker(i) submitted once to the executor that _executor_for_func picks - against that function's own proved contract -, or run on the spot, wrapped with progress bookkeeping iff a status is tracked).")
 LEVEL_NOTE = ("Schedules are sampled (reverse/random completion per generation through rtc/executors.ShuffleExecutor, "
               "real pools), not enumerated. Trusted: concurrent.futures / asyncio, the reference denotation.")
 TECHNIQUE = ("bounded relational contract checking across executor/storage/schedule configurations; leaf "
              "_executor_for_func and _update_array discharged by z3")
 TECHNIQUE += ('; RunInfo.storage_class discharged by z3')
 TECHNIQUE += ('; _cannot_be_parallelized discharged by z3')
+TECHNIQUE += ('; _maybe_parallel_map discharged by z3')
 EXPLANATION = LEVEL_TEXT
 RULE = ("programs of rtc.progs.gen_map_program with >=2 mapped elements x configurations listed in the level text; "
         "distinct = distinct (program, configuration); non-trivial = a generation with >=2 tasks")
@@ -71,6 +73,10 @@ def proof_items():
             # which backend an output is stored in: one for all, else its own entry, else the default entry ""
             ProofItem(small.storage_class, gen=small.sc_gen, registry=sreg),
             # when prepare_run switches `parallel` off on its own: nothing could run side by side
+            # every index of a mapped function is processed exactly once, in order: submitted to the executor that applies
+            # to the function, or run on the spot (with progress bookkeeping around it when a status is tracked)
+            ProofItem(small.maybe_parallel_map, gen=small.mpm_gen, call=small.mpm_call_real,
+                      registry=lambda: {**{c.short: c for c in small.PARALLEL_MAP}, **{c.name: c for c in small.PARALLEL_MAP}}),
             ProofItem(small.cannot_be_parallelized, gen=small.cbp_gen,
                       registry=lambda: {**{c.short: c for c in small.PARALLEL}, **{c.name: c for c in small.PARALLEL}}),
             # each element is written once, under the key of its linear index, on exactly one side of the executor
